@@ -146,14 +146,14 @@ def _call_work(k, n):
 
 
 def histories(ctx, quick):
-    cfg = 'SPECIFICATION Spec\nCONSTANTS\n MaxLen = %d\n Emit = TRUE\nINVARIANT RestoredByDefaultInit\nINVARIANT PrintDone\n' % (2 if quick else 3)
+    cfg = 'SPECIFICATION Spec\nCONSTANTS\n MaxLen = %d\n Emit = TRUE\nINVARIANT RestoredByDefaultInit\nINVARIANT PrintDone\n' % 2      # 28 operations: all 812 histories up to length 2; longer ones are simulated
     res = tlc.run(ctx.workdir, 'ApiHistory', cfg, workers=1, label='ApiHistory', coverage=False, timeout=900)
-    ctx.add_tlc(res, 'ApiHistory exhaustive len<=%d' % (2 if quick else 3))
+    ctx.add_tlc(res, 'ApiHistory exhaustive len<=2')
     hs = [p['hist'] for p in res.printed]
-    cfg = 'SPECIFICATION Spec\nCONSTANTS\n MaxLen = 6\n Emit = TRUE\nINVARIANT PrintDone\n'
+    cfg = 'SPECIFICATION Spec\nCONSTANTS\n MaxLen = %d\n Emit = TRUE\nINVARIANT PrintDone\n' % (6 if quick else 8)
     res = tlc.run(ctx.workdir, 'ApiHistory', cfg, workers=1, label='ApiHistory_sim', coverage=False,
-                  simulate='num=%d' % (150 if quick else 3000), depth=8, seed=ctx.seed + 1)
-    ctx.add_tlc(res, 'ApiHistory simulate len<=6')
+                  simulate='num=%d' % (150 if quick else 5000), depth=10, seed=ctx.seed + 1)
+    ctx.add_tlc(res, 'ApiHistory simulate len<=%d' % (6 if quick else 8))
     hs += [p['hist'] for p in res.printed]
     return hs
 
